@@ -36,3 +36,33 @@ def implies(a, b):
 def iff(a, b):
   return bool(a) == bool(b)
 from . import loops, calls, methods, heap  # noqa: F401,E402  (populate the builtin summaries)
+
+
+def bind_call(names, a, kw, defaults=None):
+  """Bind positional and keyword arguments of a recorded call to the callee's parameter names (the way Python would), so
+  that a contract compares WHAT reaches each parameter, not how the call site spells it. Returns (bound, ok): ok is False
+  for surplus positionals, unknown or doubly-given names; starred arguments are returned under '*' / '**'."""
+  from .values import PyTuple as _PT
+  star = lambda x: isinstance(x, tuple) and not isinstance(x, _PT) and len(x) == 2 and x[0] == '*'
+  bound, ok = {}, True
+  pos = [x for x in a if not star(x)]
+  stars = [x[1] for x in a if star(x)]
+  if len(pos) > len(names) and not stars:
+    ok = False
+  for n, v in zip(names, pos):
+    bound[n] = v
+  if len(pos) > len(names):
+    bound['*extra'] = pos[len(names):]
+  if stars:
+    bound['*'] = stars[0] if len(stars) == 1 else stars
+    ok = ok and len(stars) == 1
+  for k, v in kw.items():
+    if k == '**':
+      bound['**'] = v
+    elif k in bound or k not in names:
+      ok = False
+    else:
+      bound[k] = v
+  for k, v in (defaults or {}).items():
+    bound.setdefault(k, v)
+  return bound, ok
